@@ -29,6 +29,8 @@ def run_crash(blocks, tag, timeout=1800, cmd="crash"):
                 results[cid].setdefault("copydiff", []).append(rest[9:])
             elif rest == "copychecked":
                 results[cid]["copychecked"] = True
+            elif rest == "copyrandomchecked":
+                results[cid]["copyrandomchecked"] = True
         os.remove(cf)
         if rc == 0 or begun is None:
             break
